@@ -133,7 +133,7 @@ class NumpyBackend(BackendBase[NumericArray]):
             if args is None:
                 bcs.set_ghost_cells(data_full)
             else:
-                bcs.set_ghost_cells(data_full, *args)
+                bcs.set_ghost_cells(data_full, args=args)
 
         return set_ghost_cells
 
